@@ -51,7 +51,7 @@ def _instantiate(case, which):
     return out
 
 
-def _anonymize(lines, salt, undo=False):
+def _anonymize(lines, salt, undo=False, nonl=False):
     from netconan.anonymize_files import FileAnonymizer
 
     import random
@@ -64,7 +64,7 @@ def _anonymize(lines, salt, undo=False):
             random.seed(0x5A17)
         with core.capture_logs(logging.INFO) as records:
             fa = FileAnonymizer(anon_pwd=True, anon_ip=False, undo_ip_anon=undo, salt=salt)
-            out = core.run_io(fa, "".join(l + "\n" for l in lines))
+            out = core.run_io(fa, "".join(l + "\n" for l in lines), nonl)
     finally:
         random.setstate(state)
     if salt is None:
@@ -122,7 +122,7 @@ def check_run(case, ev):
     inst = [_instantiate(case, 0), _instantiate(case, 1)]
     res = []
     for k in (0, 1):
-        r, exc = guarded(_anonymize, [x[0] for x in inst[k]], salt, bool(case.get("undo")))
+        r, exc = guarded(_anonymize, [x[0] for x in inst[k]], salt, bool(case.get("undo")), bool(case.get("nonl")))
         if exc is not None:
             return core.exc_finding(exc, case, "run/")
         res.append(r)
@@ -204,7 +204,7 @@ def check_standalone(case, ev):
     """case: {tokens_before, token, tokens_after, salt}"""
     tok = case["token"]
     line = " ".join(case["before"] + [tok] + case["after"])
-    r, exc = guarded(_anonymize, [line], case["salt"])
+    r, exc = guarded(_anonymize, [line], case["salt"], False, bool(case.get("nonl")))
     if exc is not None:
         return core.exc_finding(exc, case, "run/")
     out = r[0][0]
@@ -215,7 +215,7 @@ def check_standalone(case, ev):
         if tok2 and tok2 != tok:
             # a second token of the same class and shape in the same place: identical output, and no
             # piece of either secret's body left behind
-            r2, exc = guarded(_anonymize, [" ".join(case["before"] + [tok2] + case["after"])], case["salt"])
+            r2, exc = guarded(_anonymize, [" ".join(case["before"] + [tok2] + case["after"])], case["salt"], False, bool(case.get("nonl")))
             if exc is not None:
                 return core.exc_finding(exc, case, "run/")
             out2 = r2[0][0]
@@ -339,7 +339,7 @@ def _run_case(draw, max_lines=6):
                         v, ident = v2, v2  # a lone backslash is an ordinary character of the secret
             ids.add(ident)
             values[which].append(v)
-    return {"salt": draw(st.sampled_from(["Tsalt", "", "s", "_x", "QzF", None])), "lines": lines, "classes": [b["cls"] for b in blocks], "values": values, "undo": undo}
+    return {"salt": draw(st.sampled_from(["Tsalt", "", "s", "_x", "QzF", None])), "lines": lines, "classes": [b["cls"] for b in blocks], "values": values, "undo": undo, "nonl": draw(st.integers(0, 3)) == 0}
 
 
 _hash_token = st.one_of(S.md5_value(), S.j9_value())
@@ -374,7 +374,7 @@ def _standalone_case(draw):
     tok, tok2 = draw(_hash_pair())
     if draw(st.booleans()):
         tok, tok2 = '"' + tok + '"', '"' + tok2 + '"'
-    return {"before": draw(st.lists(_soup, max_size=5)), "token": tok, "token2": tok2, "after": draw(st.lists(st.sampled_from(S.BENIGN + ["ro", "rw", "1", "7"]), max_size=2)), "salt": draw(st.sampled_from(["Tsalt", "Tsalt", None]))}
+    return {"before": draw(st.lists(_soup, max_size=5)), "token": tok, "token2": tok2, "after": draw(st.lists(st.sampled_from(S.BENIGN + ["ro", "rw", "1", "7"]), max_size=2)), "salt": draw(st.sampled_from(["Tsalt", "Tsalt", None])), "nonl": draw(st.integers(0, 3)) == 0}
 
 
 def t_runs(shard, nshards, seed, ev, known, n=500):
